@@ -10,6 +10,7 @@
 package main
 
 import (
+	"strconv"
 	"bufio"
 	"crypto/sha256"
 	"encoding/json"
@@ -103,6 +104,12 @@ var gens = map[string]genFn{}
 func main() {
 	if len(os.Args) == 4 && os.Args[1] == "measure" {
 		measureMain(os.Args[2], os.Args[3])
+		return
+	}
+	if len(os.Args) == 5 && os.Args[1] == "climb" {
+		seed, _ := strconv.ParseInt(os.Args[2], 10, 64)
+		evals, _ := strconv.Atoi(os.Args[3])
+		climbMain(seed, evals, os.Args[4])
 		return
 	}
 	if len(os.Args) == 4 && os.Args[1] == "rerun" {
